@@ -43,20 +43,47 @@ def run(tier, seed):
 
 
 def refinement(v, traces):
-    """the discrepancy from the exact arc shrinks quadratically with finecontour_Nfine (same grid at 50, 100, 200)"""
-    import numpy as np
+    """the discrepancy from the exact arc shrinks quadratically with finecontour_Nfine: the same grid at 50, 100 and 200, judged pairwise by
+    Trace_Grid.tla (clause QuadraticInNfine) on the cells whose faces are not region joins"""
+    import json
+    import os
 
-    by = {t["name"]: t for t in traces}
-    trio = [by.get("lsn_orth_n50"), by.get("lsn_orth"), by.get("lsn_orth_n200")]
-    if any(t is None for t in trio):
+    from .. import campaign
+    from ..core import PY, VERIF, MachineryError, repo_env, run_group, scratch, parallel_jobs
+
+    trio = ["lsn_orth_n50", "lsn_orth", "lsn_orth_n200"]
+    grids = campaign.ensure(trio)
+    if any(grids[n][1]["outcome"] != "file" for n in trio):
         v.note("refinement", "grids missing")
         return
-    errs = []
-    for t in trio:
-        H = np.array(t["hydy"]["centre"], float)
-        A = np.array(t["arc"]["Alo_c"], float) + np.array(t["arc"]["Ahi_c"], float)
-        errs.append(float(np.sqrt(np.mean(((H - A) / A) ** 2))))
-    ratios = [errs[0] / errs[1], errs[1] / errs[2]]
-    v.note("refinement", {"nfine": [50, 100, 200], "rms_rel_error_hy": errs, "ratios": ratios})
-    if min(ratios) < 2.5:
-        v.violation("C05 engine=grid clause=QuadraticInNfine", "hy error does not shrink quadratically with Nfine: rms relative errors %s" % errs, {"errs": errs})
+    d = scratch("c05r")
+    jobs = []
+    for n, (a, b) in enumerate(zip(trio[:-1], trio[1:])):
+        op = os.path.join(d, "pair%d.json" % n)
+
+        def job(a=a, b=b, op=op, n=n):
+            rc, out, err = run_group([PY, "-B", os.path.join(VERIF, "harness/project.py"), grids[a][0], "C05", "--pair", grids[b][0], "refine", op], timeout=1800, env=repo_env())
+            if rc != 0 or not os.path.exists(op):
+                raise MachineryError("pair projection failed %s %s\n%s" % (a, b, (out + err)[-2000:]))
+            with open(op) as fh:
+                t = json.load(fh)
+            t["id"] = 8000 + n
+            t["pair"] = "%s/%s" % (a, b)
+            return t
+
+        jobs.append(job)
+    pt = parallel_jobs(jobs)
+    pf, results = gridprops.validate(pt, "C05r")
+    for r in results:
+        v.add_tlc(r)
+    v.add_traces(len(pt))
+    for t in pt:
+        v.add_case("refinement " + t["pair"])
+        for cl, loc in sorted(pf.get(t["id"], ())):
+            if cl == "QuadraticInNfine":
+                v.violation("C05 engine=gridpair clause=QuadraticInNfine pair=%s" % t["pair"], "hy error does not shrink by 2.5 from Nfine=%d to %d (%s)" % (t["nfineA"], t["nfineB"], t["pair"]),
+                            {"pair": t["pair"]})
+    v.note("refinement", {"pairs": [t["pair"] for t in pt]})
+    import shutil
+
+    shutil.rmtree(d, ignore_errors=True)
